@@ -236,51 +236,109 @@ def r2_shuffle_coupling(repo: Repo, rep):
                       f"shuffle flags {flags}: coupled axes permuted by one permutation each", f"found {got}; {'; '.join(detail)}", str(got))
 
 
+def _wkey(e: Optional[ast.AST], extra: Optional[ast.AST] = None) -> str:
+    """normal form of a window bound (non-polynomial sub-terms such as `x % n` are atoms); `extra` is added (start + length)"""
+    from ..absdom.poly import RF as _RF, NotPoly as _NP, to_rf as _to_rf
+
+    def atom(n):
+        if isinstance(n, ast.Name):
+            return _RF.atom(n.id)
+        if isinstance(n, (ast.Call, ast.Attribute, ast.Subscript)) or (isinstance(n, ast.BinOp) and isinstance(n.op, (ast.Mod, ast.FloorDiv))):
+            return _RF.atom(dump(n).replace(" ", ""))
+        return None
+    if e is None:
+        return ""
+    try:
+        v = _to_rf(e, atom)
+        if extra is not None:
+            v = v + _to_rf(extra, atom)
+        return repr(v)
+    except _NP:
+        return dump(e).replace(" ", "") + ("+" + dump(extra).replace(" ", "") if extra is not None else "")
+
+
+class Win(tuple):
+    """(kind, lo text, hi text) — equality on the kind and the normal forms of the bounds"""
+
+    def __new__(cls, kind, lo, hi, lo_key=None, hi_key=None):
+        t = super().__new__(cls, (kind, lo, hi))
+        t.key = (kind, lo_key if lo_key is not None else lo.replace(" ", ""), hi_key if hi_key is not None else hi.replace(" ", ""))
+        return t
+
+    def __eq__(self, o):
+        return isinstance(o, Win) and self.key == o.key
+
+    def __ne__(self, o):
+        return not self.__eq__(o)
+
+    def __hash__(self):
+        return hash(self.key)
+
+
+def _open_end(w: Win) -> bool:
+    return w.key[2] == "" or (w.key[2].startswith("len(") and w.key[2].endswith(")") and w.key[2].count("(") == 1)  # up to the end (coupled tensors have one length on coupled axes)
+
+
+def _open_start(w: Win) -> bool:
+    return w.key[1] in ("", "0")
+
+
 def _window(expr: ast.AST):
-    """-> (base expr, {axis: ('win'|'wrap', lo_text, hi_text)}) peeling slices and wrap-around concatenations"""
+    """-> (base expr, {axis: Win('win'|'wrap', lo_text, hi_text)}) peeling slices, narrow() and wrap-around concatenations; an axis is an int or a name"""
     wins = {}
     cur = expr
     for _ in range(6):
         if isinstance(cur, ast.Subscript):
             elts = cur.slice.elts if isinstance(cur.slice, ast.Tuple) else [cur.slice]
-            trivial = True
             for ax, e in enumerate(elts):
                 if isinstance(e, ast.Slice) and (e.lower is not None or e.upper is not None):
-                    if ax in wins:
+                    if ax in wins or e.step is not None:
                         return None
-                    wins[ax] = ("win", dump(e.lower) if e.lower else "", dump(e.upper) if e.upper else "")
-                    trivial = False
+                    wins[ax] = Win("win", dump(e.lower) if e.lower else "", dump(e.upper) if e.upper else "", _wkey(e.lower), _wkey(e.upper))
                 elif isinstance(e, ast.Slice):
                     pass
                 else:
                     return None
             cur = cur.value
             continue
+        if isinstance(cur, ast.Call) and isinstance(cur.func, ast.Attribute) and cur.func.attr == "narrow" and len(cur.args) == 3 and not cur.keywords:
+            axn, start, length = cur.args
+            ax = axn.value if isinstance(axn, ast.Constant) and isinstance(axn.value, int) else dump(axn)
+            if ax in wins:
+                return None
+            hi = ast.BinOp(left=start, op=ast.Add(), right=length)
+            lo_t = "" if dump(start) == "0" else dump(start)
+            wins[ax] = Win("win", lo_t, dump(hi), "" if lo_t == "" else _wkey(start), _wkey(start, length))
+            cur = cur.func.value
+            continue
         if isinstance(cur, ast.Call) and ends(attr_chain(cur.func), "cat") and cur.args and isinstance(cur.args[0], (ast.List, ast.Tuple)) and len(cur.args[0].elts) == 2:
             dim = kwarg(cur, "dim", 1)
-            if not (isinstance(dim, ast.Constant) and isinstance(dim.value, int)):
+            if isinstance(dim, ast.Constant) and isinstance(dim.value, int):
+                ax = dim.value
+            elif isinstance(dim, ast.Name):
+                ax = dim.id
+            else:
                 return None
             x, y = cur.args[0].elts
             wx, wy = _window(x), _window(y)
             if wx is None or wy is None:
                 return None
             (bx, dx), (by, dy) = wx, wy
-            ax = dim.value
             if dump(bx) != dump(by) or ax not in dx or ax not in dy:
                 return None
             ox = {k: v for k, v in dx.items() if k != ax}
             oy = {k: v for k, v in dy.items() if k != ax}
             if ox != oy:
                 return None
-            (k1, lo1, hi1), (k2, lo2, hi2) = dx[ax], dy[ax]
-            if not (k1 == "win" and k2 == "win"):
+            w1, w2 = dx[ax], dy[ax]
+            if not (w1[0] == "win" and w2[0] == "win"):
                 return None
             if ax in wins:
                 return None
-            if hi1 == "" and lo2 == "":
-                wins[ax] = ("wrap", lo1, hi2)
-            elif lo1 == "" and hi2 == "":
-                wins[ax] = ("wrap-swapped", lo2, hi1)  # [:b] before [a:]: rows in a different order than the partner tensor
+            if _open_end(w1) and _open_start(w2):
+                wins[ax] = Win("wrap", w1[1], w2[2], w1.key[1], w2.key[2])
+            elif _open_start(w1) and _open_end(w2):
+                wins[ax] = Win("wrap-swapped", w2[1], w1[2], w2.key[1], w1.key[2])  # [:b] before [a:]: rows in a different order than the partner tensor
             else:
                 return None
             for k, v in ox.items():
@@ -366,7 +424,19 @@ def r2b_windows_unique(repo: Repo, rep):
         detail = f"branch digit = {db[0]}(idx, {db[1]}), trunk digit = {dt[0]}(idx, {dt[1]})"
         if ok:
             radix = db[1]
-            # len must be radix * (count of the quotient digit)
+            # window counts: attributes defined as ceil(length / batch size)
+            counts = {}
+            init = ci.methods.get("__init__")
+            for q in (paths(init.node, expand_self=False) if init is not None else []):
+                for name, val in q.attrs.items():
+                    t = dump(val).replace(" ", "")
+                    for fn in ("int(np.ceil(", "int(math.ceil(", "math.ceil(", "np.ceil("):
+                        if t.startswith(fn) and "/" in t:
+                            inner = t[len(fn):].rstrip(")")
+                            L, _, BS = inner.partition("/")
+                            counts[(L, BS)] = name
+                break
+            # len must be radix * (count of the quotient digit's tensor); the remainder digit's radix is its own tensor's count
             for p in paths(ln.node, expand_self=False):
                 if p.ret is RAISE:
                     continue
@@ -374,6 +444,16 @@ def r2b_windows_unique(repo: Repo, rep):
                 factors = sorted(x.strip() for x in txt.split("*"))
                 ok = ok and len(factors) == 2 and radix in factors
                 detail += f"; __len__ = {txt}"
+                if ok and counts:
+                    for who, dg in (("branch", db), ("trunk", dt)):
+                        own = counts.get((dg[3].replace(" ", ""), dg[2].replace(" ", "")))
+                        if own is None:
+                            continue
+                        other = [f for f in factors if f != radix] or [radix]
+                        rng = radix if dg[0] == "rem" else other[0]
+                        if rng != own:
+                            ok = False
+                            detail += f"; the {who} digit ranges over {rng} values but its tensor has {own} windows"
         rep.check(R3, ok, gi.site(), gi.fq, "idx -> (idx // m, idx % m) with one radix m and __len__ = m * (other count)", detail, f"{db}|{dt}")
 
 
@@ -403,6 +483,8 @@ def r2c_shared_trunk(repo: Repo, rep):
             if isinstance(g, ast.Compare) and dump(g.left) == pn[3] and isinstance(g.ops[0], ast.Eq) and pol:
                 axis = g.comparators[0].value
         wp, wo = _window(r.elts[0]), _window(r.elts[1])
+        if axis is None and wo is not None and set(wo[1]) == {pn[3]}:
+            axis = pn[3]  # the window is applied on the axis the caller names, whatever it is
         if wp is None or wo is None or axis is None:
             rep.undecided(R2, sl.site(p.ret_node), sl.fq, "window descriptors extractable", "idiom outside slices/cat")
             continue
